@@ -119,8 +119,9 @@ class IntRange:
                 + ([IntRange(self.hi+1, other.hi)]
                    if self.hi < other.hi else [])
             )
-        elif other.lo <= self.hi:
-            return [IntRange(self.lo, other.lo-1)], [IntRange(self.hi+1, other.hi)]
+        elif other.lo <= self.lo:
+            # other starts before self and ends inside it.
+            return [IntRange(other.hi+1, self.hi)], [IntRange(other.lo, self.lo-1)]
         return [IntRange(self.lo, other.lo-1)], [IntRange(self.hi+1, other.hi)]
 
     def __str__(self):
